@@ -19,21 +19,18 @@ import json
 import os
 import re
 
-THEOREMS = ["IstioModel.C14.MonitorTheorems", "IstioModel.C14.KernelTheorems", "IstioModel.C14.ListenerConflictTheorems"]
-KERNEL_STREAMS = ("domains", "clusters", "answer", "lconflict")
+THEOREMS = ["IstioModel.C14.MonitorTheorems", "IstioModel.C14.KernelTheorems", "IstioModel.C14.ListenerConflictTheorems", "IstioModel.C14.GatewayDupTheorems"]
+KERNEL_STREAMS = ("domains", "clusters", "answer", "lconflict", "gwdup")
 
 
 # Findings of this check that are NOT fixed in /repo (see notes/C14.md, section Findings). The coordinator
 # records them in known-findings.json (status: known); until an entry is there, this local copy is used, as
 # BUILDING.md allows. Anything not listed here - in particular every crash, every closure or name-uniqueness
-# violation and every collision from admitted objects other than the three below - still fails the run.
+# violation and every collision from admitted objects other than the ones below - still fails the run.
 LOCAL_KNOWN = [
     # objects that pass admission validation
     ("snapshot:addr-unique:admitted:ServiceEntry",
      "a service on port 15001 (the sidecar's own virtualOutbound port) yields a second listener on 0.0.0.0:15001; Envoy rejects it (duplicate address)"),
-    ("snapshot:dup-fcm:admitted:Gateway+VirtualService",
-     "a TLS PASSTHROUGH server with a wildcard host and a TLS-terminating server for host H on one gateway port, plus a VirtualService tls route "
-     "with sniHosts [H]: two filter chains match server_names [H]; Envoy rejects the gateway listener"),
     ("snapshot:weights:admitted:tag=vs-huge-weights",
      "validation admits HTTP route weights whose sum exceeds 4294967295 (it adds them in an int32); Envoy rejects the RouteConfiguration"),
     ("snapshot:api-valid:RouteAction_HashPolicy_Header.HeaderName:_value_length_must_be_at_least_N_runes:admitted:tag=dr-empty-hash",
@@ -101,13 +98,21 @@ CHUNK = 200  # cases per harness process: every FakeDiscoveryServer leaves gorou
 
 
 def harness(ctx, *args, **kw):
-    """ctx.harness, rebuilding the binary if it vanished (scratch-worktree binaries under harness/bin are shared
-    with other checks' clean-ups)."""
-    exe = getattr(ctx, "bin_path", None)
-    if exe and not os.path.exists(exe):
-        ctx.log("harness binary vanished, rebuilding")
-        ctx.go_build()
     return ctx.harness(*args, **kw)
+
+
+def guard_binary(ctx):
+    """Make every ctx.harness call rebuild the binary if it vanished (binaries under harness/bin are shared with
+    other checks' clean-ups; observed with scratch-worktree runs)."""
+    orig = ctx.harness
+
+    def wrapped(*args, **kw):
+        exe = getattr(ctx, "bin_path", None)
+        if exe and not os.path.exists(exe):
+            ctx.log("harness binary vanished, rebuilding")
+            ctx.go_build()
+        return orig(*args, **kw)
+    ctx.harness = wrapped
 
 
 def exec_snapshot(ctx, ops_path, tag, retry=True):
@@ -420,6 +425,7 @@ def run(ctx):
         return
     if not ctx.go_build():
         return
+    guard_binary(ctx)
     for k in KERNEL_STREAMS:
         # lconflict: the whole finite table (15 incoming protocols x 2 binds x (no entry + 15 x 2 entries)), every run
         ctx.diff_stream(k, 15 if k == "lconflict" else ctx.n(1500, 30000), oracle=kernel_oracle)
@@ -452,6 +458,7 @@ def replay(ctx, path):
     install_local_known(ctx)
     if not (ctx.build_drv() and ctx.go_build()):
         return
+    guard_binary(ctx)
     p = os.path.join(ctx.work, "replay.ops")
     write_lines(p, ops)
     if stream == "snapshot":
